@@ -120,6 +120,8 @@ func fixtureByName(n string) (*fedlab.Config, *fedlab.Universe) {
 		return c14lab.MutationFixture()
 	case "iface":
 		return c14lab.InterfaceFixture()
+	case "grid":
+		return c14lab.GridFixture()
 	}
 	return fedlab.Example()
 }
